@@ -63,3 +63,9 @@ Definition setdefault_off (m : omap) (e : nat) (d v : Z) : Z * omap :=
   | Ok v0 => (v0, m)
   | Err _ => (v, setitem_off m e d v)
   end.
+
+(* m[e][d] = v  and  del m[e][d]: the dictionary m[e] hands out is the mapping's own (split.py / join.py write through it), so a
+   write through it is a write to the mapping; an element that is not in the mapping has no dictionary to write through *)
+Definition inner_setitem (m : omap) (e : nat) (d v : Z) : result omap :=
+  match om_get e m with Some _ => Ok (setitem_off m e d v) | None => Err KeyErr end.
+Definition inner_delitem (m : omap) (e : nat) (d : Z) : result omap := delitem_off m e d.
